@@ -427,6 +427,17 @@ def check_hkdf(ck_ob, mod, label):
         if len(cands) == 1:
             prevphi = cands[0]
             ptrs = [P for P in ptrs if P is not prevphi]
+    if len(ints) > 1:
+        # further integers carried by the loop (a length that is read in a later iteration before it is set again): the remaining length
+        # is the one that enters the loop as outlen minus the left-over bytes; the others stay what they are - unknown values, which start
+        # as a constant of the buffer-position class and are no function of the remaining length.  An obligation that finds such a value
+        # where the remaining length belongs (the zero-fill length of the refusal) is refuted by the entry class itself: for that class the
+        # value is a constant while the remaining length is free
+        ent_ = [p for p in ps if p.end[0] == "loop-entry" and p.end[1] == hdr]
+        remc = [I for I in ints if ent_ and all((lambda v_: v_ is not None and not is_word(v_) and v_.get(OLEN, 0) == 1 and all(k_ in (OLEN, 1) for k_ in v_))(p.env.get(("init", I.id))) for p in ent_)]
+        auxc = [I for I in ints if I not in remc]
+        if len(remc) == 1 and all(ent_ and all((lambda v_: v_ is not None and not is_word(v_) and v_.const() is not None)(p.env.get(("init", I.id))) for p in ent_) for I in auxc):
+            ints = remc
     if len(ptrs) != 1 or len(ints) != 1:
         raise Broken("tinyjambu_hkdf_expand: expected an output cursor and a remaining length at the loop head")
     cur, rem = ("hdp", ptrs[0].id), ("hd", ints[0].id)
